@@ -454,6 +454,11 @@ class Interp:
         if isinstance(v, Row):
             k = z3.Const('__k', StrS)
             return z3.Exists([k], v.dom[k])
+        if isinstance(v, Opaque) and v.kind in ('result', 'dictval', 'listelem', 'item', 'excattr'):
+            # value returned by an unmodelled call: its truthiness is unknown (but fixed)
+            if '__truth__' not in v.attrs:
+                v.attrs['__truth__'] = self.fresh('truthy_' + v.kind, BoolS)
+            return v.attrs['__truth__']
         if isinstance(v, (FuncDefV, UFunc, Builtin, BoundMethod, ClassV, Opaque, Instance, GenObj, Stream, RegexV,
                           ExcV, ModuleV, Tree)):
             if isinstance(v, Tree):
@@ -1209,7 +1214,7 @@ class Interp:
         if v is Ellipsis:
             raise Unsupported('Ellipsis')
         if isinstance(v, bytes):
-            raise Unsupported('bytes')
+            return self.lib.BytesV(v)
         return v
 
     def eval_Name(self, node, env):
